@@ -471,6 +471,10 @@ pub struct CaseOut {
 }
 
 pub struct Oracles {
+    /// thorough tier: the heavier variant of the batteries
+    pub deep: bool,
+    /// a panic while decoding / processing the input is a violation (C15, C23)
+    pub panics: bool,
     pub consistent: bool,
     pub alloc: bool,
     pub utf8: bool,
@@ -547,7 +551,7 @@ fn valid_utf8_strings(d: &Automerge, out: &mut CaseOut) {
 }
 
 /// C16: a document that load accepted behaves like a valid one
-pub fn consistent(d: &Automerge, out: &mut CaseOut) {
+pub fn consistent(d: &Automerge, out: &mut CaseOut, deep: bool) {
     let r = guard(|| -> Result<(), String> {
         let heads = d.get_heads();
         let _ = crate::obs::observe(d, None, &heads);
@@ -555,7 +559,7 @@ pub fn consistent(d: &Automerge, out: &mut CaseOut) {
         let changes = d.get_changes(&[]);
         // historical reads at a few heads of the loaded graph
         let g = crate::graph::Graph::new(changes.clone());
-        for h in g.all_head_sets(5) {
+        for h in g.all_head_sets(if deep { 5 } else { 2 }) {
             let _ = crate::obs::observe(d, Some(&h), &heads);
             let _ = crate::obs::extras(d, Some(&h));
             if !h.is_empty() {
@@ -564,7 +568,7 @@ pub fn consistent(d: &Automerge, out: &mut CaseOut) {
             }
         }
         // one edit of each theme
-        for th in crate::alphabet::THEMES {
+        for th in crate::alphabet::THEMES.iter().take(if deep { 99 } else { 3 }) {
             let mut x = d.clone().with_actor(actor(0x21));
             for op in crate::alphabet::theme(th) {
                 if let crate::world::EditResult::Done = crate::world::edit_commit(&mut x, op) {
@@ -603,11 +607,17 @@ pub fn consistent(d: &Automerge, out: &mut CaseOut) {
     }
 }
 
+fn thread_cpu_time() -> Duration {
+    let mut ts = libc::timespec { tv_sec: 0, tv_nsec: 0 };
+    unsafe { libc::clock_gettime(libc::CLOCK_THREAD_CPUTIME_ID, &mut ts) };
+    Duration::new(ts.tv_sec as u64, ts.tv_nsec as u32)
+}
+
 pub fn exec(t: Target, data: &[u8], ctx: &Ctx, or: &Oracles) -> CaseOut {
     let mut out = CaseOut::default();
     let n = data.len();
     let base_live = crate::alloc_count::begin();
-    let t0 = Instant::now();
+    let t0 = thread_cpu_time();
     let r = guard(|| -> bool {
         match t {
             Target::Load | Target::LoadIgnore | Target::LoadDontCheck | Target::LoadMigrate | Target::LoadUnverifiedHeads => {
@@ -636,7 +646,9 @@ pub fn exec(t: Target, data: &[u8], ctx: &Ctx, or: &Oracles) -> CaseOut {
                 let mut d = ctx.doc.clone();
                 let ok = d.load_incremental(data).is_ok();
                 let _ = d.hydrate(None);
-                ok
+                // "accepted" = something was taken in (applied or queued); load_incremental also
+                // returns Ok for input it ignores entirely
+                ok && (d.get_heads() != ctx.doc.get_heads() || d.get_missing_deps(&[]) != ctx.doc.get_missing_deps(&[]))
             }
             Target::Rescue => Automerge::rescue(data).is_ok(),
             Target::ChangeFromBytes => match Change::from_bytes(data.to_vec()) {
@@ -737,11 +749,15 @@ pub fn exec(t: Target, data: &[u8], ctx: &Ctx, or: &Oracles) -> CaseOut {
                 .unwrap_or(false),
         }
     });
-    let dt = t0.elapsed();
+    let dt = thread_cpu_time().saturating_sub(t0);
     let (peak, total) = crate::alloc_count::end(base_live);
     match r {
         Ok(acc) => out.accepted = acc,
-        Err(p) => out.violations.push(("panic".into(), p.location.clone(), format!("{:?}: {}", t, p.message))),
+        Err(p) => {
+            if or.panics {
+                out.violations.push(("panic".into(), p.location.clone(), format!("{:?}: {}", t, p.message)))
+            }
+        }
     }
     if or.alloc && crate::alloc_count::installed() {
         let peak_limit = (64 << 20) + 1024 * n;
@@ -752,8 +768,10 @@ pub fn exec(t: Target, data: &[u8], ctx: &Ctx, or: &Oracles) -> CaseOut {
         if total > total_limit {
             out.violations.push(("memory-bounded".into(), format!("{:?}:total", t), format!("{} input bytes -> {} bytes allocated in total (limit {})", n, total, total_limit)));
         }
-        if dt > Duration::from_secs(2) {
-            out.violations.push(("time-bounded".into(), format!("{:?}", t), format!("{} input bytes took {:?}", n, dt)));
+        // CPU time of this thread (not wall time: the verdict must not depend on machine load).
+        // Ordinary cases take well under 10 ms; the limit is two orders of magnitude above that.
+        if dt > Duration::from_millis(750) {
+            out.violations.push(("time-bounded".into(), format!("{:?}", t), format!("{} input bytes took {:?} of CPU time", n, dt)));
         }
     }
     // heavier batteries on accepted documents
@@ -767,6 +785,7 @@ pub fn exec(t: Target, data: &[u8], ctx: &Ctx, or: &Oracles) -> CaseOut {
                 let mut d = ctx.doc.clone();
                 d.load_incremental(data).ok().map(|_| d)
             }
+            .filter(|d: &Automerge| d.get_heads() != ctx.doc.get_heads() || d.get_missing_deps(&[]) != ctx.doc.get_missing_deps(&[])),
             Target::ChangeFromBytes => Change::from_bytes(data.to_vec()).ok().and_then(|c| {
                 let mut d = ctx.doc.clone();
                 d.apply_changes([c]).ok().map(|_| d)
@@ -780,7 +799,7 @@ pub fn exec(t: Target, data: &[u8], ctx: &Ctx, or: &Oracles) -> CaseOut {
         };
         if let Some(d) = d {
             if or.consistent {
-                consistent(&d, &mut out);
+                consistent(&d, &mut out, or.deep);
             }
             if or.utf8 {
                 let r = guard(|| {
@@ -790,7 +809,8 @@ pub fn exec(t: Target, data: &[u8], ctx: &Ctx, or: &Oracles) -> CaseOut {
                 });
                 match r {
                     Ok(o) => out.violations.extend(o.violations),
-                    Err(p) => out.violations.push(("panic".into(), format!("reading strings@{}", p.location), p.message)),
+                    // a read that panics is C16's business; no string was handed out
+                    Err(_) => {}
                 }
             }
         }
@@ -802,15 +822,29 @@ pub fn exec(t: Target, data: &[u8], ctx: &Ctx, or: &Oracles) -> CaseOut {
 // worker / orchestrator
 
 pub fn spec_for(property: &str, thorough: bool) -> (Spec, Oracles) {
+    let (mut spec, or) = spec_for0(property, thorough);
+    // debugging aid: VERIF_TARGETS=Load,Bundle restricts the run (the evidence then lists only those targets)
+    if let Ok(f) = std::env::var("VERIF_TARGETS") {
+        let want: Vec<&str> = f.split(',').collect();
+        spec.targets.retain(|t| want.contains(&format!("{:?}", t).as_str()));
+    }
+    (spec, or)
+}
+
+fn spec_for0(property: &str, thorough: bool) -> (Spec, Oracles) {
     let few = Some(vec![0x00, 0x01, 0x7f, 0x80, 0xff]);
     match property {
         "C15" => (
             Spec { targets: ALL_TARGETS.to_vec(), k: if thorough { 3 } else { 2 }, text_depth: if thorough { 4 } else { 3 }, overwrite_values: if thorough { None } else { few }, leb_extremes: true, mutations: true, short: true, invalid_utf8_seqs: false },
-            Oracles { consistent: false, alloc: false, utf8: false },
+            Oracles { deep: thorough, panics: true, consistent: false, alloc: false, utf8: false },
         ),
         "C16" => (
             Spec {
-                targets: vec![Target::Load, Target::LoadDontCheck, Target::LoadUnverifiedHeads, Target::LoadIgnore, Target::LoadIncDoc],
+                targets: if thorough {
+                    vec![Target::Load, Target::LoadDontCheck, Target::LoadUnverifiedHeads, Target::LoadIgnore, Target::LoadIncDoc]
+                } else {
+                    vec![Target::Load, Target::LoadUnverifiedHeads, Target::LoadIncDoc]
+                },
                 k: 1,
                 text_depth: 0,
                 overwrite_values: if thorough { None } else { few },
@@ -819,15 +853,15 @@ pub fn spec_for(property: &str, thorough: bool) -> (Spec, Oracles) {
                 short: false,
                 invalid_utf8_seqs: false,
             },
-            Oracles { consistent: true, alloc: false, utf8: false },
+            Oracles { deep: thorough, panics: false, consistent: true, alloc: false, utf8: false },
         ),
         "C17" => (
             Spec { targets: ALL_TARGETS.to_vec(), k: 2, text_depth: 3, overwrite_values: Some(vec![0xff, 0x7f]), leb_extremes: true, mutations: thorough, short: true, invalid_utf8_seqs: false },
-            Oracles { consistent: false, alloc: true, utf8: false },
+            Oracles { deep: thorough, panics: false, consistent: false, alloc: true, utf8: false },
         ),
         "C23" => (
             Spec { targets: vec![Target::Bloom], k: if thorough { 3 } else { 2 }, text_depth: 0, overwrite_values: None, leb_extremes: true, mutations: true, short: true, invalid_utf8_seqs: false },
-            Oracles { consistent: false, alloc: false, utf8: false },
+            Oracles { deep: thorough, panics: true, consistent: false, alloc: false, utf8: false },
         ),
         other => panic!("no spec for {}", other),
     }
@@ -875,7 +909,7 @@ pub fn worker_main(args: &[String]) -> i32 {
             std::thread::sleep(Duration::from_millis(200));
             let started = CASE_STARTED_MS.load(std::sync::atomic::Ordering::Relaxed);
             let idx = CASE_IDX.load(std::sync::atomic::Ordering::Relaxed);
-            if idx != u64::MAX && (t_origin.elapsed().as_millis() as u64).saturating_sub(started) > 3000 {
+            if idx != u64::MAX && (t_origin.elapsed().as_millis() as u64).saturating_sub(started) > 10000 {
                 unsafe { libc::_exit(3) };
             }
         });
@@ -885,6 +919,8 @@ pub fn worker_main(args: &[String]) -> i32 {
     let mut viol = 0u64;
     let mut per_target: std::collections::BTreeMap<String, (u64, u64)> = Default::default();
     let mut sample: Option<String> = None;
+    let mut per_sig: std::collections::BTreeMap<String, u64> = Default::default();
+    let mut last_progress = Instant::now();
     enumerate(&spec, &ctx, &mut |idx, t, data| {
         if let Some(o) = only {
             if idx != o {
@@ -905,7 +941,12 @@ pub fn worker_main(args: &[String]) -> i32 {
         }
         CASE_STARTED_MS.store(t_origin.elapsed().as_millis() as u64, std::sync::atomic::Ordering::Relaxed);
         CASE_IDX.store(idx, std::sync::atomic::Ordering::Relaxed);
+        let c0 = thread_cpu_time();
         let r = exec(t, data, &ctx, &or);
+        let took = thread_cpu_time().saturating_sub(c0);
+        if took > Duration::from_millis(500) {
+            let _ = writeln!(out, "{}", json!({"slow": true, "idx": idx, "target": format!("{:?}", t), "ms": took.as_millis() as u64, "len": data.len()}));
+        }
         CASE_IDX.store(u64::MAX, std::sync::atomic::Ordering::Relaxed);
         cases += 1;
         let e = per_target.entry(format!("{:?}", t)).or_insert((0, 0));
@@ -917,21 +958,29 @@ pub fn worker_main(args: &[String]) -> i32 {
                 sample = Some(format!("{:?}:{}", t, hex::encode(&data[..data.len().min(48)])));
             }
         }
+        if cases % 4096 == 0 && last_progress.elapsed() > Duration::from_millis(1500) {
+            last_progress = Instant::now();
+            let _ = writeln!(out, "{}", json!({"progress": true, "cases": cases, "accepted": accepted, "per_target": per_target, "per_sig": per_sig}));
+            let _ = out.flush();
+        }
         for (oracle, site, detail) in r.violations {
             viol += 1;
-            if viol <= 400 {
+            // at most 3 cases are written out per signature; all are counted
+            let n = per_sig.entry(format!("{}|{}", oracle, site)).or_insert(0u64);
+            *n += 1;
+            if *n <= 3 {
                 let _ = writeln!(out, "{}", json!({"idx": idx, "target": format!("{:?}", t), "oracle": oracle, "site": site, "detail": detail, "hex": hex::encode(data)}));
                 let _ = out.flush();
             }
         }
     });
     CASE_IDX.store(u64::MAX, std::sync::atomic::Ordering::Relaxed);
-    let _ = writeln!(out, "{}", json!({"done": true, "cases": cases, "accepted": accepted, "violations": viol, "per_target": per_target, "sample": sample}));
+    let _ = writeln!(out, "{}", json!({"done": true, "cases": cases, "accepted": accepted, "violations": viol, "per_target": per_target, "sample": sample, "per_sig": per_sig}));
     let _ = out.flush();
     0
 }
 
-fn worker_bin() -> std::path::PathBuf {
+pub fn worker_bin() -> std::path::PathBuf {
     let me = std::env::current_exe().unwrap();
     me.parent().unwrap().join("amcw")
 }
@@ -1103,24 +1152,18 @@ pub fn run_engine(property: &str, tier: &str, rep: &Report) -> bool {
     // collect
     let mut targets: std::collections::BTreeMap<String, (u64, u64)> = Default::default();
     let mut done_shards = std::collections::BTreeSet::new();
+    let mut extra_hits: std::collections::BTreeMap<String, u64> = Default::default();
     for o in outs.iter() {
         let Ok(text) = std::fs::read_to_string(o) else { continue };
+        // the summary of a worker generation: its `done` line, else its last `progress` line
+        let mut summary: Option<serde_json::Value> = None;
         for line in text.lines() {
             let Ok(j) = serde_json::from_str::<serde_json::Value>(line) else { continue };
             if j["done"].as_bool() == Some(true) {
                 done_shards.insert(o.file_name().unwrap().to_string_lossy().split('.').next().unwrap().to_string());
-                rep.count("evaluations", j["cases"].as_u64().unwrap_or(0));
-                rep.count("accepted_inputs", j["accepted"].as_u64().unwrap_or(0));
-                if let Some(pt) = j["per_target"].as_object() {
-                    for (k, v) in pt {
-                        let e = targets.entry(k.clone()).or_insert((0, 0));
-                        e.0 += v[0].as_u64().unwrap_or(0);
-                        e.1 += v[1].as_u64().unwrap_or(0);
-                    }
-                }
-                if let Some(sm) = j["sample"].as_str() {
-                    rep.sample(json!({"accepted_input": sm}));
-                }
+                summary = Some(j);
+            } else if j["progress"].as_bool() == Some(true) {
+                summary = Some(j);
             } else if j["oracle"].is_string() {
                 rep.violation(
                     Violation::new(j["oracle"].as_str().unwrap_or("?"), j["site"].as_str().unwrap_or("?"), j["detail"].as_str().unwrap_or("").to_string())
@@ -1128,6 +1171,32 @@ pub fn run_engine(property: &str, tier: &str, rep: &Report) -> bool {
                 );
             }
         }
+        if let Some(j) = summary {
+            rep.count("evaluations", j["cases"].as_u64().unwrap_or(0));
+            rep.count("accepted_inputs", j["accepted"].as_u64().unwrap_or(0));
+            if let Some(pt) = j["per_target"].as_object() {
+                for (k, v) in pt {
+                    let e = targets.entry(k.clone()).or_insert((0, 0));
+                    e.0 += v[0].as_u64().unwrap_or(0);
+                    e.1 += v[1].as_u64().unwrap_or(0);
+                }
+            }
+            if let Some(sm) = j["sample"].as_str() {
+                rep.sample(json!({"accepted_input": sm}));
+            }
+            if let Some(ps) = j["per_sig"].as_object() {
+                for (k, v) in ps {
+                    // the first 3 occurrences were written out as cases
+                    let n = v.as_u64().unwrap_or(0);
+                    if n > 3 {
+                        *extra_hits.entry(k.replace(' ', "_")).or_insert(0u64) += n - 3;
+                    }
+                }
+            }
+        }
+    }
+    for (k, n) in extra_hits {
+        rep.add_hits(&k, n);
     }
     if done_shards.len() as u64 != nshards {
         complete = false;
